@@ -92,11 +92,14 @@ def check(spec):
         explicit = spec.get('offsets') is not None
         if explicit:
             kw['offsets'] = tuple(spec['offsets'])
+        given = dict(idmap)      # one dict object, passed to every call (as a caller adding the same fragment repeatedly does)
         try:
             for _ in range(spec.get('times', 1)):
-                a.extend(b, structure_index_map=dict(idmap), **kw)
+                a.extend(b, structure_index_map=given, **kw)
         except Exception as e:
             return "extend raised %r" % (e,)
+        if given != idmap:
+            return "extend modified the identity map it was given: %r, was %r" % (given, idmap)
         after = gen.view(a)
         vb2 = gen.view(b)
         probs = gen.wf_problems(a)
